@@ -137,6 +137,12 @@ def gen_c04(rng, tier):
                         for back in (sz * ln, sz * ln - 4, sz * ln - sz // 2):
                             if 0 < back <= s.rs:
                                 case.append("derva_slice %s %s 0x%x %d" % (k, ty, (s.va + s.rs - back) & U32, ln))
+                    # the by-value copy of a composite type needs ALL its bytes (round-6 change C01-r6-3 asked `slice` for
+                    # align_of bytes only and copied size_of): a few bytes before the end of the stored bytes
+                    for back in (sz, sz - 1, sz - 4, sz // 2, 4, 1):
+                        if 0 < back <= s.rs:
+                            case.append("derva_copy %s %s 0x%x" % (k, ty, (s.va + s.rs - back) & U32))
+                            case.append("deref_copy %s %s 0x%x" % (k, ty, (pe.image_base + s.va + s.rs - back) & ((1 << pe.bits) - 1)))
                     # element counts whose byte size does not fit a usize (the request must fail with Overflow, through the
                     # rva and through the va entry point; round-6 change C04-r6-2 let the product wrap to a few bytes)
                     if s.rs >= sz:
